@@ -258,6 +258,33 @@ def send_loop(rep, u):
         rep.proved("R-PATH", fn, "send-loop-accounting", desc, "%d body paths: %s" % (len(paths), sorted(sums)))
     else:
         rep.violated("R-PATH", fn, "send-loop-accounting", desc, "path summaries (sends, sent, failed, err) = %s" % sorted(sums))
+    # the sent counter is what the completion counts down from: it must already include a message when that message is
+    # handed to tpt_msg_send (the callback may run - synchronously with SELF_DIRECT - and count down before the send returns)
+    late = None
+    checked = 0
+    for p in paths:
+        order = []
+        for ev in r_path.events(fn, p):
+            if ev[0] != "elem":
+                continue
+            for n, ps in walk(ev[2]):
+                if n.get("k") == "un" and n["op"] in ("post++", "pre++") and key(core.strip_casts(n["e"])) == sentk:
+                    order.append(("inc", n.get("ln")))
+                if n.get("k") == "call" and n.get("fn") == "tpt_msg_send":
+                    order.append(("send", n.get("ln")))
+        if any(o[0] == "send" for o in order):
+            checked += 1
+            first_send = next(i for i, o in enumerate(order) if o[0] == "send")
+            if not any(o[0] == "inc" for o in order[:first_send]):
+                late = late or "on a path through the loop body the message is sent at line %s before the counter is raised%s" % (
+                    order[first_send][1], (" (line %s)" % next(o[1] for o in order if o[0] == "inc")) if any(o[0] == "inc" for o in order) else "")
+    desc = "the count of messages in flight is raised before the message is handed to tpt_msg_send (and taken back if the send fails)"
+    if sentk is None:
+        rep.undecided("R-PATH", fn, "count-before-send", desc, "sent counter not identified")
+    elif late:
+        rep.violated("R-PATH", fn, "count-before-send", desc, late + ": a callback that completes first counts down from a total that does not include it yet")
+    else:
+        rep.proved("R-PATH", fn, "count-before-send", desc, "%d sending paths" % checked)
     # return value is the error counter
     rets = [r for pos, r in fn.returns()]
     ok = rets and errk is not None and all(key(core.strip_casts(r.get("e"))) == errk for r in rets)
